@@ -28,6 +28,9 @@ from harness.common import Ctx, Part, lean_batch, lean_batch_parallel, load_corp
 
 THEOREMS = [
     "IrVerif.Path.C10_lexical",
+    "IrVerif.Path.C10_real",
+    "IrVerif.Path.C10_read_safe",
+    "IrVerif.Path.C10_all_entry_points",
     "IrVerif.Path.C10_load_base_nonempty",
 ]
 ASSUMPTIONS = [
@@ -131,6 +134,62 @@ def describe_tree(R: str) -> dict:
             inodes[key]["locs"].append(p)
             entries.append([p, "f", inodes[key]["id"]])
     return {"entries": entries, "inodes": inodes}
+
+
+def build_random_tree(rng) -> dict:
+    """A small random tree: directories, files, symlinks with random (relative / absolute / dangling /
+    looping) targets, hard links.  File contents are unique."""
+    top = os.path.realpath(tempfile.mkdtemp(prefix="irverif-c10-"))
+    R = os.path.join(top, "r")
+    os.mkdir(R)
+    names = ["a", "b", "c", "x"]
+    dirs = [R]
+    files = []
+    contents = []
+    for _ in range(rng.randrange(4, 13)):
+        parent = rng.choice(dirs)
+        name = rng.choice(names)
+        p = os.path.join(parent, name)
+        if os.path.lexists(p):
+            continue
+        r = rng.random()
+        if r < 0.3:
+            os.mkdir(p)
+            dirs.append(p)
+        elif r < 0.55:
+            c = ("F%07d" % len(contents)).encode()
+            _w(p, c)
+            contents.append(c.decode())
+            files.append(p)
+        elif r < 0.65 and files:
+            os.link(rng.choice(files), p)
+        else:
+            k = rng.randrange(1, 4)
+            t = "/".join(rng.choice(names + ["..", "..", ".", ""]) for _ in range(k))
+            q = rng.random()
+            if q < 0.15:
+                t = R + "/" + t
+            elif q < 0.2:
+                t = "/" + t
+            elif q < 0.3:
+                t = t + "/"
+            if t == "":
+                t = "."
+            os.symlink(t, p)
+    scratch = os.path.join(top, "scratch")
+    os.mkdir(scratch)
+    return {"top": top, "R": R, "scratch": scratch, "canaries": contents, "dirs": dirs}
+
+
+def random_tree_path(rng, R: str) -> str:
+    k = rng.randrange(1, 6)
+    body = "/".join(rng.choice(["a", "b", "c", "x", "a", "b", "..", ".", ""]) for _ in range(k))
+    r = rng.random()
+    if r < 0.75:
+        return body
+    if r < 0.8:
+        return "/" + body
+    return R + "/" + body
 
 
 # --------------------------------------------------------------------------- real reads
@@ -309,6 +368,12 @@ def base_spellings(R: str) -> list[dict]:
         {"cwd": R, "base": R + "/base/d", "true": b + "/d", "kind": "abs-subdir"},
         {"cwd": R, "base": R + "/nonexistent", "true": None, "kind": "abs-missing"},
         {"cwd": R, "base": R + "/base/f", "true": b + "/f", "kind": "abs-is-file"},
+        {"cwd": R + "/outside", "base": "../base", "true": b, "kind": "rel-from-sibling"},
+        {"cwd": R, "base": R + "/base/dlink_out", "true": R + "/outside", "kind": "abs-symlink-to-outside-dir"},
+        {"cwd": R + "/base", "base": "dlink_in/..", "true": b, "kind": "rel-symlink-dotdot"},
+        {"cwd": R, "base": R + "/base/loop_a", "true": None, "kind": "abs-symlink-loop"},
+        {"cwd": R, "base": "base/dangling", "true": None, "kind": "rel-dangling"},
+        {"cwd": R, "base": "/", "true": "/", "kind": "root"},
     ]
 
 
@@ -620,9 +685,45 @@ def run(ctx: Ctx) -> None:
         for p in pmap(_realpath_work, rp_jobs):
             ctx.merge(p)
         load_cases(ctx, tree, desc)
+        random_trees(ctx)
     finally:
         os.chdir(old)
         shutil.rmtree(tree["top"], ignore_errors=True)
+
+
+def random_trees(ctx: Ctx) -> None:
+    """Random small trees: reads with a random real directory as base, and realpath/lstat/stat."""
+    trees = []
+    try:
+        jobs, rp_jobs = [], []
+        for _ in range(ctx.pick(24, 300)):
+            tr = build_random_tree(ctx.rng)
+            trees.append(tr)
+            desc = describe_tree(tr["R"])
+            R = tr["R"]
+            for _ in range(2):
+                bdir = ctx.rng.choice(tr["dirs"])
+                cwd = ctx.rng.choice(tr["dirs"])
+                spell = ctx.rng.random()
+                if spell < 0.5:
+                    base = bdir
+                elif spell < 0.8:
+                    base = os.path.relpath(bdir, cwd)
+                else:
+                    base = bdir + "/"
+                sp = {"cwd": cwd, "base": base, "true": bdir, "kind": "random-tree"}
+                cases = [(random_tree_path(ctx.rng, R), ctx.rng.choice(ENTRY_POINTS), 0, NBYTES) for _ in range(ctx.pick(60, 120))]
+                jobs.append({"tree": tr, "desc": desc, "sp": sp, "cases": cases})
+            cwd = ctx.rng.choice(tr["dirs"])
+            paths = [p for p in (random_tree_path(ctx.rng, R) for _ in range(ctx.pick(80, 160))) if p != ""]
+            rp_jobs.append({"desc": desc, "cwd": cwd, "paths": paths, "R": R})
+        for p in pmap(_work, jobs):
+            ctx.merge(p)
+        for p in pmap(_realpath_work, rp_jobs):
+            ctx.merge(p)
+    finally:
+        for tr in trees:
+            shutil.rmtree(tr["top"], ignore_errors=True)
 
 
 def replay(ctx: Ctx, obj: dict) -> None:
